@@ -2763,6 +2763,11 @@ class GS(G):
             r.append("case")
         if t in ("Box", "key", "Error") and not self.in_module:
             r += ["name", "name"]
+        if not self.in_module and "\n" not in t:
+            # strings made by std.regexp natives (each match is a fresh string the native puts into a list of results)
+            r += ["rx-captures"]
+            if t and "," not in t:
+                r += ["rx-all", "rx-all"]
         if self.with_module and depth == 0:
             r += ["module", "module"]
         return r
@@ -2867,6 +2872,16 @@ class GS(G):
             if t == "Error":
                 return kind, ("call", ("prop", ("var", "Error"), "name"), [])
             return kind, ("call", ("prop", ("var", "key"), "name"), [])
+        if kind == "rx-all":
+            self.uses_regexp = True
+            k = self.pick([0, 1, 3, 4, 5, 9, 17, 40])
+            words = ["w%d" % i for i in range(k)] + [t] + ["z%d" % i for i in range(self.i(0, 2))]
+            return kind, ("index", ("call", ("prop", ("call", ("var", "RegExp"), [("str", "[^,]+")]), "matchAll"), [("str", ",".join(words))]),
+                          ("num", float(k)))
+        if kind == "rx-captures":
+            self.uses_regexp = True
+            return kind, ("index", ("call", ("prop", ("call", ("var", "RegExp"), [("str", "(x+)-(.*)-(y+)")]), "captures"),
+                                    [("str", "xx-" + t + "-yy")]), ("num", 2.0))
         if kind == "module":
             self.in_module = True
             _, inner = self.route(t, 1)
@@ -2971,6 +2986,8 @@ class GS(G):
                     body.append(self.wrap(("call", ("prop", x, "has"), [y])))
         body.append(("print", ("call", ("prop", ("var", "m"), "len"), [])))
         body.append(("print", ("var", "held")))
+        if getattr(self, "uses_regexp", False):
+            pre.insert(0, ("import", ["std", "regexp"], ("syms", [("RegExp", None)])))
         if in_fn:
             main = pre + [("fn", "main", [], body), ("expr", ("call", ("var", "main"), []))]
         else:
